@@ -849,6 +849,22 @@ func runSpec(prop string) int {
 		if sample != "" {
 			cov["samples"] = append(cov["samples"].([]string), sample)
 		}
+		mn := 16
+		if tier == "thorough" {
+			mn = 20
+		}
+		if v, err := strconv.Atoi(os.Getenv("C12_SHAPE_NODES")); err == nil && v > 0 {
+			mn = v
+		}
+		sc := runShapeSearch(rep, mn)
+		cov["tree_shape_search"] = sc
+		if tr, ok := sc["transitions"].(int); ok {
+			cov["transitions"] = cov["transitions"].(int) + tr
+			cov["traces_validated_against_impl"] = cov["transitions"]
+		}
+		if ex, _ := sc["exhaustive"].(bool); !ex {
+			cov["exhaustive"] = false
+		}
 	}
 	if prop == "C09" {
 		n, samples := runTimedPops(rep)
